@@ -196,7 +196,7 @@ fn names_project(name: &str) -> Option<Project> {
     }
     if name == "mapped" {
         return Some(Project::single(format!(
-            "{}use tauri::ipc::Channel;\nuse tauri::{{AppHandle, Emitter}};\n#[derive(Serialize, Deserialize)]\npub struct Job {{ pub id: Uuid, pub at: Option<Timestamp>, pub files: Vec<PathBuf>, pub by: HashMap<String, Uuid> }}\n#[tauri::command]\npub fn start(id: Uuid, on_finished: Channel<Uuid>, on_ticks: Channel<Vec<Timestamp>>, on_last: Channel<Option<Timestamp>>, on_job: Channel<Job>) -> Vec<Uuid> {{ vec![] }}\n#[tauri::command]\npub fn paths(at: Timestamp) -> HashMap<String, Vec<PathBuf>> {{ todo!() }}\npub fn fire(app: &AppHandle, ids: Vec<Uuid>) {{ app.emit(\"ids\", ids).unwrap(); }}\n#[derive(Serialize, Deserialize)]\npub struct Money {{ pub amount: i64, pub currency: Currency }}\n#[derive(Serialize, Deserialize)]\npub enum Currency {{ Eur, Usd }}\n#[derive(Serialize, Deserialize)]\npub struct Invoice {{ pub total: Money, pub lines: Vec<Money> }}\n#[tauri::command]\npub fn get_invoice(id: Uuid) -> Invoice {{ todo!() }}\npub fn paid(app: &AppHandle, i: Invoice) {{ app.emit(\"paid\", i).unwrap(); }}\n",
+            "{}use tauri::ipc::Channel;\nuse tauri::{{AppHandle, Emitter}};\n#[derive(Serialize, Deserialize)]\npub struct Job {{ pub id: Uuid, pub at: Option<Timestamp>, pub files: Vec<PathBuf>, pub by: HashMap<String, Uuid> }}\n#[tauri::command]\npub fn start(id: Uuid, on_finished: Channel<Uuid>, on_ticks: Channel<Vec<Timestamp>>, on_last: Channel<Option<Timestamp>>, on_job: Channel<Job>) -> Vec<Uuid> {{ vec![] }}\n#[tauri::command]\npub fn paths(at: Timestamp, since: Option<Timestamp>, ids: Vec<Uuid>, by_id: HashMap<String, Uuid>) -> HashMap<String, Vec<PathBuf>> {{ todo!() }}\n#[tauri::command]\npub fn subscribe(on_tick: Channel<Timestamp>) -> bool {{ true }}\n#[tauri::command]\npub fn pay(price: Money, tips: Vec<Money>) -> bool {{ true }}\npub fn fire(app: &AppHandle, ids: Vec<Uuid>) {{ app.emit(\"ids\", ids).unwrap(); }}\n#[derive(Serialize, Deserialize)]\npub struct Money {{ pub amount: i64, pub currency: Currency }}\n#[derive(Serialize, Deserialize)]\npub enum Currency {{ Eur, Usd }}\n#[derive(Serialize, Deserialize)]\npub struct Invoice {{ pub total: Money, pub lines: Vec<Money> }}\n#[tauri::command]\npub fn get_invoice(id: Uuid) -> Invoice {{ todo!() }}\npub fn paid(app: &AppHandle, i: Invoice) {{ app.emit(\"paid\", i).unwrap(); }}\n",
             gen::PRELUDE
         )));
     }
@@ -238,6 +238,35 @@ fn names_case(name: &str) -> (Vec<Violation>, u64) {
             Violation::new("C10", "declared-names-or-keys-differ", format!("project {}: {}", name, diffs.join("; ")), json!({"names_project": name}))
                 .field("project", name.to_string()),
         );
+    }
+    // under a mapping table: every key that an interface of the plain run and the schema of the same
+    // name in the Zod run have in common admits the same values
+    if name == "mapped" {
+        if let (Some(Ok(pm)), Some(Ok(zm))) = (plain.file("types.ts").map(ts::parse_module), zod.file("types.ts").map(ts::parse_module)) {
+            let (pi, zi) = (ModInfo::of(&pm), ModInfo::of(&zm));
+            let mut compared = 0;
+            for (iname, (_, members)) in &pi.interfaces {
+                let Some(init) = zi.var_init(&format!("{}Schema", iname)) else { continue };
+                let Ok(z) = shape::read_zod(init) else { continue };
+                for m in members {
+                    let Member::Prop { key, ty, .. } = m else { continue };
+                    let k = prop_key_string(key);
+                    let Some(zf) = z.fields.get(&k) else { continue };
+                    compared += 1;
+                    let (a, b) = (norm_absent(&shape::from_ts(ty)), norm_absent(&zf.shape));
+                    if a != b {
+                        vs.push(
+                            Violation::new("C10", "key-shape-differs-between-modes", format!("project {}: {}.{} is {} in the plain declaration but the Zod schema admits {}", name, iname, k, a.show(), b.show()), json!({"names_project": name}))
+                                .field("project", name.to_string())
+                                .field("key", format!("{}.{}", iname, k)),
+                        );
+                    }
+                }
+            }
+            if compared == 0 {
+                vs.push(Violation::new("C10", "ORACLE", format!("project {}: no key could be compared between the modes", name), json!({"names_project": name})).field("project", name.to_string()));
+            }
+        }
     }
     (vs, 2)
 }
